@@ -78,12 +78,14 @@ class Engine:
         self.max_paths = 4000
         self.feas_checks = 0
         self._solver = z3.Solver()
-        self._solver.set('timeout', 1500)
+        self._solver.set('timeout', 400)
         self.global_axioms = []        # z3 Bool assumed in every query (validated string axioms etc.)
         self.typeof = z3.Function('typeof', RefSort(), z3.IntSort())
         self.uf = {}
         self.specfns = {}
         self.inline_depth = 0
+        self.facts = []                # valid ground instances of builtin axioms met on the way (shared by all paths)
+        self._fact_keys = set()
         for k, p in BUILTIN_EXC.items():
             self._reg_exc(k, p)
         # exception classes of the repo, from the source
@@ -173,6 +175,8 @@ class Engine:
         try:
             for a in self.global_axioms:
                 s.add(a)
+            for a in self.facts:
+                s.add(a)
             for p in st.pc:
                 s.add(p)
             r = s.check()
@@ -186,6 +190,8 @@ class Engine:
         try:
             for a in self.global_axioms:
                 s.add(a)
+            for a in self.facts:
+                s.add(a)
             for p in st.pc:
                 s.add(p)
             s.add(z3.Not(goal))
@@ -193,6 +199,14 @@ class Engine:
         finally:
             s.pop()
         return r == z3.unsat
+
+    def fact(self, b, why=''):
+        k = b.sexpr()
+        if k not in self._fact_keys:
+            self._fact_keys.add(k)
+            self.facts.append(b)
+            if why:
+                self.assumptions_used['builtin:' + why] = why
 
     # ---------------------------------------------------------------- obligations
     def oblige(self, kind, st, goal, line=0, detail='', tag=''):
@@ -203,6 +217,7 @@ class Engine:
         fn = self.cur_func_name
         name = f'{self.pid}/{fn}/{kind}{tag}' + (f'@L{line}' if line else '')
         ob = Obligation(name, kind, st.pc, goal, line, dict(self.cur_inputs), detail, fn)
+        ob.facts = self.facts      # shared list: complete by the time the obligation is discharged
         self.obligations.append(ob)
         return ob
 
@@ -266,7 +281,9 @@ class Engine:
             if isinstance(v.ty, TRef):
                 return V(ty, v.t)
         if isinstance(v.ty, TOpt) and v.ty.inner == ty:
-            # unwrap: caller must have established non-None (use `unwrap` for a checked version)
+            # unwrap: only when the path condition proves the value is not None
+            if st is not None and not self.spec_mode and not self.entails(st, v.ty.is_some(v.t)):
+                raise Unsupported(f'Optional value used as {ty} on a path where it may be None')
             return V(ty, v.ty.val(v.t))
         if isinstance(ty, TSeq) and isinstance(v.ty, TSeq) and v.ty.elem is NONE:
             return V(ty, z3.Empty(ty.sort()))
